@@ -186,6 +186,7 @@ func runCheck(prop, tier string, rebaseline bool) int {
 	}
 	ld.bindSpecial()
 	run.Assume = specs.Assumes
+	pruneQueryFiles(2 * time.Hour)
 	if !rebaseline {
 		loadPinnedTables()
 		for _, name := range specs.Order {
@@ -196,7 +197,7 @@ func runCheck(prop, tier string, rebaseline bool) int {
 						run.Notes = append(run.Notes, fmt.Sprintf("contract for %s: the receiver became a pointer; the contract is kept, the receiver is assumed non-nil (it was a value at every call)", name))
 						continue
 					}
-					if paramsAdded(want, sigKey(fn)) {
+					if paramsAdded(want, sigKey(fn)) || paramsKeptByName(fn, pinnedParams[name], want) {
 						run.Notes = append(run.Notes, fmt.Sprintf("contract for %s: parameters were added (%s, was %s); the contract is kept for the parameters it names", name, sigKey(fn), want))
 						continue
 					}
@@ -467,6 +468,9 @@ func boundedFallback(run *CheckRun, ld *Loaded, specs *SpecDB, prop, tier string
 	if tier == "thorough" {
 		K = 4
 	}
+	if k, err := strconv.Atoi(os.Getenv("GOVC_K")); err == nil && k > 0 {
+		K = k
+	}
 	base := loadBaseline()
 	pinnedLoops = map[string]int{}
 	for _, kv := range base["#loops"] {
@@ -678,7 +682,7 @@ func bindParams(fn *ssa.Function, get func(i int, p *ssa.Parameter) (SV, bool), 
 			vars[p.Name()] = v
 		}
 	}
-	if pn, ok := pinnedParams[fnName(fn)]; ok && len(pn) <= len(fn.Params) {
+	if pn, ok := pinnedParams[fnName(fn)]; ok && len(pn) <= len(fn.Params) && !namesPresent(pn, fn) {
 		for i, p := range fn.Params {
 			if i >= len(pn) {
 				break
@@ -688,6 +692,67 @@ func bindParams(fn *ssa.Function, get func(i int, p *ssa.Parameter) (SV, bool), 
 			}
 		}
 	}
+}
+
+// namesPresent: every parameter name of the pinned function is still a parameter name (binding by name is then
+// right even if parameters were inserted or reordered; positional binding is for renamed parameters)
+func namesPresent(pn []string, fn *ssa.Function) bool {
+	cur := map[string]bool{}
+	for _, p := range fn.Params {
+		cur[p.Name()] = true
+	}
+	for _, n := range pn {
+		if n != "" && n != "_" && !cur[n] {
+			return false
+		}
+	}
+	return true
+}
+
+// paramsKeptByName: the pinned parameters are all still there under their names with their types (others may
+// have been inserted anywhere) and the results are unchanged.
+func paramsKeptByName(fn *ssa.Function, pinnedNames []string, pinnedSig string) bool {
+	ri := strings.LastIndex(pinnedSig, "->")
+	if ri < 0 || pinnedSig[ri+2:] != typeKey(fn.Signature.Results()) {
+		return false
+	}
+	var ptypes []string
+	if pinnedSig[:ri] != "" {
+		ptypes = splitTopLevel(pinnedSig[:ri])
+	}
+	if len(ptypes) != len(pinnedNames) || len(pinnedNames) >= len(fn.Params) {
+		return false
+	}
+	cur := map[string]string{}
+	for _, p := range fn.Params {
+		cur[p.Name()] = typeKey(p.Type())
+	}
+	for i, n := range pinnedNames {
+		if n == "" || n == "_" || cur[n] != ptypes[i] {
+			return false
+		}
+	}
+	return true
+}
+
+// splitTopLevel splits a comma-separated list of type keys at the commas that are not nested in brackets.
+func splitTopLevel(s string) []string {
+	var out []string
+	depth, start := 0, 0
+	for i, r := range s {
+		switch r {
+		case '(', '[', '{':
+			depth++
+		case ')', ']', '}':
+			depth--
+		case ',':
+			if depth == 0 {
+				out = append(out, s[start:i])
+				start = i + 1
+			}
+		}
+	}
+	return append(out, s[start:])
 }
 
 // taggedRequires: the call-precondition obligation belongs to a clause of the callee that is tagged with
